@@ -3,57 +3,12 @@
 package funcs
 
 import (
-	dtpb "github.com/google/fhir/go/proto/google/fhir/proto/r4/core/datatypes_go_proto"
+	"time"
+
 	"github.com/verily-src/fhirpath-go/fhirpath/internal/expr"
 	"github.com/verily-src/fhirpath-go/fhirpath/system"
 	"github.com/verily-src/fhirpath-go/internal/verifrt"
 )
-
-// verifInstantUs: an instant in 2024 (symbolic in the thorough tier, one of two days in the quick tier).
-func verifInstantUs(label string) int64 {
-	if verifrt.Thorough() {
-		return int64(verifrt.NondetIntRange(label, 1704067200, 1704067200+400*86400)) * 1000000
-	}
-	return []int64{1704067200, 1709164800 + 86399}[verifrt.Choose(label, 2)] * 1000000
-}
-
-// verifFhirElement draws a FHIR primitive or Quantity element the way a resource may carry it: optional parts absent,
-// text fields arbitrary (a FHIR Quantity need not have a value; a decimal is text; a date carries a zone name).
-func verifFhirElement(label string) any {
-	switch verifrt.Choose(label+".element", 8) {
-	case 0:
-		q := &dtpb.Quantity{}
-		if verifrt.NondetBool(label + ".hasValue") {
-			q.Value = &dtpb.Decimal{Value: verifrt.NondetString(label+".qv", verifrt.Bound(1, 2))}
-		}
-		if verifrt.NondetBool(label + ".hasCode") {
-			q.Code = &dtpb.Code{Value: []string{"mg", "", "a"}[verifrt.Choose(label+".code", 3)]}
-		}
-		if verifrt.NondetBool(label + ".hasUnit") {
-			q.Unit = &dtpb.String{Value: "mg"}
-		}
-		return q
-	case 1:
-		return &dtpb.Decimal{Value: verifrt.NondetString(label+".dv", verifrt.Bound(2, 3))}
-	case 2:
-		return &dtpb.Date{ValueUs: verifInstantUs(label+".date.s"),
-			Timezone:  []string{"", "Z", "+05:00", "x", "UTC"}[verifrt.Choose(label+".tz", 5)],
-			Precision: dtpb.Date_Precision(verifrt.Choose(label+".dp", 4))}
-	case 3:
-		return &dtpb.DateTime{ValueUs: verifInstantUs(label+".dt.s"),
-			Timezone:  []string{"", "Z", "-08:00", "?"}[verifrt.Choose(label+".tz", 4)],
-			Precision: dtpb.DateTime_Precision(verifrt.Choose(label+".dtp", 7))}
-	case 4:
-		return &dtpb.Time{ValueUs: int64(verifrt.NondetInt32(label+".t.us")) * 1000, Precision: dtpb.Time_Precision(verifrt.Choose(label+".tp", 4))}
-	case 5:
-		return &dtpb.Instant{ValueUs: verifInstantUs(label+".in.s"),
-			Timezone: []string{"", "Z", "+05:30"}[verifrt.Choose(label+".tz", 3)], Precision: dtpb.Instant_Precision(verifrt.Choose(label+".ip", 4))}
-	case 6:
-		return &dtpb.UnsignedInt{Value: verifrt.NondetUint32(label + ".ui")}
-	default:
-		return &dtpb.Base64Binary{Value: []byte{0xfb, 0xff, 0x01}}
-	}
-}
 
 // C01: every table entry with a FHIR element receiver in every shape a resource may carry.
 func verifElementFunctionSweep(group int) {
@@ -88,3 +43,16 @@ func VerifHarness_C01_ElementFunctions_G0() { verifElementFunctionSweep(0) }
 func VerifHarness_C01_ElementFunctions_G1() { verifElementFunctionSweep(1) }
 func VerifHarness_C01_ElementFunctions_G2() { verifElementFunctionSweep(2) }
 func VerifHarness_C01_ElementFunctions_G3() { verifElementFunctionSweep(3) }
+
+// C01: now(), today() and timeOfDay() return a value or an error for every evaluation instant OverrideTime can supply,
+// including the first instant whose year has five digits.
+func VerifHarness_C01_ClockFunctionsTotal() {
+	t := verifFullTable()
+	y := []int{1, 2024, 9999, 10000}[verifrt.Choose("year", 4)]
+	ctx := verifCtx()
+	ctx.Now = time.Date(y, time.Month(verifrt.NondetIntRange("mo", 1, 12)), 1, verifrt.NondetIntRange("h", 0, 23), 0, 0, 0, time.UTC)
+	name := []string{"now", "today", "timeOfDay"}[verifrt.Choose("fn", 3)]
+	res, err := t[name].Func(ctx, system.Collection{})
+	verifrt.Assert(err != nil || len(res) == 1, "clock-function-returns-a-value-or-an-error")
+	verifrt.Reach("end")
+}
